@@ -136,10 +136,10 @@ func c03Seq(tier string) []SeqJob {
 	var out []SeqJob
 	add := func(name string, s *SeqSpec, secs float64) { out = append(out, SeqJob{Name: name, Spec: s, Seconds: secs}) }
 	if tier == "quick" {
-		add("seq/max3/2keys/depth5", c03Spec(3, false, false, []int{1, 2}, 5), 40)
+		add("seq/max3/2keys/depth4", c03Spec(3, false, false, []int{1, 2}, 4), 40)
 		add("seq/max3/3keys/depth4", c03Spec(3, false, false, []int{1, 2, 3}, 4), 40)
 		add("seq/max4/costfn/2keys/depth4", c03Spec(4, false, true, []int{1, 2}, 4), 40)
-		add("seq/max3/internal-cost/2keys/depth5", c03Spec(3, true, false, []int{1, 2}, 5), 40)
+		add("seq/max3/internal-cost/2keys/depth4", c03Spec(3, true, false, []int{1, 2}, 4), 40)
 	} else {
 		add("seq/max3/2keys/depth8", c03Spec(3, false, false, []int{1, 2}, 8), 560)
 		add("seq/max3/3keys/depth7", c03Spec(3, false, false, []int{1, 2, 3}, 7), 560)
@@ -421,7 +421,7 @@ func c17Seq(tier string) []SeqJob {
 	var out []SeqJob
 	add := func(name string, s *SeqSpec, secs float64) { out = append(out, SeqJob{Name: name, Spec: s, Seconds: secs}) }
 	if tier == "quick" {
-		add("seq/setbuf1/max2/2keys/depth5", c17Spec(1, 2, []int{1, 2}, 5, false), 40)
+		add("seq/setbuf1/max2/2keys/depth6", c17Spec(1, 2, []int{1, 2}, 6, false), 40)
 		add("seq/setbuf3/max2/2keys/ttl/depth4", c17Spec(3, 2, []int{1, 2}, 4, true), 40)
 		add("seq/setbuf3/max3/3keys/depth4", c17Spec(3, 3, []int{1, 2, 3}, 4, false), 40)
 	} else {
